@@ -460,6 +460,178 @@ def make_positive(fn, cls):
     return True
 
 
+# ------------------------------------- resolve_degeneracy written over a constant table
+def _bind(target, value, env):
+    """tuple-unpacking of a loop target against a constant table entry"""
+    if isinstance(target, ast.Name):
+        if target.id != '_':
+            env[target.id] = value
+        return
+    if isinstance(target, (ast.Tuple, ast.List)) and isinstance(value, (tuple, list)) and \
+            len(target.elts) == len(value):
+        for t, v in zip(target.elts, value):
+            _bind(t, v, env)
+        return
+    raise TranslateError(f'resolve_degeneracy: cannot bind {ast.unparse(target)!r} to {value!r}')
+
+
+def _ev(node, env):
+    """integer / list-of-integers value of an expression over bound loop variables"""
+    if isinstance(node, ast.Name) and node.id in env:
+        return env[node.id]
+    if isinstance(node, ast.BinOp) and isinstance(node.op, (ast.Add, ast.Sub)):
+        a, b = _ev(node.left, env), _ev(node.right, env)
+        if isinstance(a, int) and isinstance(b, int):
+            return a + b if isinstance(node.op, ast.Add) else a - b
+    try:
+        return ast.literal_eval(node)
+    except (ValueError, SyntaxError):
+        raise TranslateError(f'resolve_degeneracy: value of {ast.unparse(node)!r}')
+
+
+def _is_int(x):
+    return isinstance(x, int) and not isinstance(x, bool)
+
+
+def resolve_degeneracy_table(fn, consts):
+    """the same decisions as resolve_degeneracy() reads from the unrolled code, read from
+    a version that loops over a module-level constant table: list of masks by
+    comprehension, companion test in a loop over zip(masks, TABLE), concatenations by
+    comprehension.  The loops are unrolled here by binding the loop targets to the
+    table entries and evaluating the column expressions (a + 4 ...)."""
+    def assigns(name):
+        return [s for s in fn.body if isinstance(s, ast.Assign) and len(s.targets) == 1 and
+                isinstance(s.targets[0], ast.Name) and s.targets[0].id == name]
+
+    def comp_over(node):
+        """ListComp with one generator, no condition -> (elt, target, iter)"""
+        if isinstance(node, ast.ListComp) and len(node.generators) == 1 and not node.generators[0].ifs:
+            g = node.generators[0]
+            return node.elt, g.target, g.iter
+        return None
+    # a. the masks
+    masks = table = None
+    for s in fn.body:
+        if isinstance(s, ast.Assign) and len(s.targets) == 1 and isinstance(s.targets[0], ast.Name):
+            c = comp_over(s.value)
+            if c and isinstance(c[2], ast.Name) and isinstance(consts.get(c[2].id), (tuple, list)) and \
+                    isinstance(c[0], ast.Compare) and len(c[0].ops) == 1 and isinstance(c[0].ops[0], ast.Eq):
+                if masks is not None:
+                    raise TranslateError('resolve_degeneracy: two mask lists')
+                masks, table, mask_comp = s.targets[0].id, c[2].id, c
+    if masks is None:
+        raise TranslateError('resolve_degeneracy: no list of collapse masks over a constant table')
+    entries = consts[table]
+    if len(entries) == 0:
+        raise TranslateError('resolve_degeneracy: empty table')
+
+    def col_expr(node, base_idx, env):
+        """hex_data[<base_idx>, E] -> value of E"""
+        if isinstance(node, ast.Subscript) and isinstance(node.value, ast.Name) and node.value.id == 'hex_data' \
+                and isinstance(node.slice, ast.Tuple) and len(node.slice.elts) == 2 and \
+                ast.unparse(node.slice.elts[0]) == base_idx:
+            v = _ev(node.slice.elts[1], env)
+            if _is_int(v):
+                return v
+        raise TranslateError(f'resolve_degeneracy: column expression {ast.unparse(node)!r}')
+    equal = []
+    for e in entries:
+        env = {}
+        _bind(mask_comp[1], e, env)
+        equal.append((col_expr(mask_comp[0].left, ':', env), col_expr(mask_comp[0].comparators[0], ':', env)))
+
+    def zip_targets(target, it):
+        """for <mask>, T in zip(masks, TABLE)  (either order) -> (mask name, T)"""
+        if isinstance(it, ast.Call) and ast.unparse(it.func) == 'zip' and len(it.args) == 2 and \
+                isinstance(target, ast.Tuple) and len(target.elts) == 2:
+            names = [ast.unparse(a) for a in it.args]
+            if names == [masks, table] and isinstance(target.elts[0], ast.Name):
+                return target.elts[0].id, target.elts[1]
+            if names == [table, masks] and isinstance(target.elts[1], ast.Name):
+                return target.elts[1].id, target.elts[0]
+        raise TranslateError(f'resolve_degeneracy: loop over {ast.unparse(it)!r}')
+    # b. the companion test
+    loops = [s for s in fn.body if isinstance(s, ast.For)]
+    if len(loops) != 1 or loops[0].orelse or len(loops[0].body) != 1:
+        raise TranslateError('resolve_degeneracy: expected one loop (the companion test)')
+    mname, ttarget = zip_targets(loops[0].target, loops[0].iter)
+    st = loops[0].body[0]
+    if not (isinstance(st, ast.If) and not st.orelse and len(st.body) == 1 and isinstance(st.body[0], ast.Raise)
+            and 'ValueError' in ast.unparse(st.body[0]) and
+            isinstance(st.test, ast.UnaryOp) and isinstance(st.test.op, ast.Not) and
+            isinstance(st.test.operand, ast.Call) and ast.unparse(st.test.operand.func) == 'np.all' and
+            len(st.test.operand.args) == 1 and isinstance(st.test.operand.args[0], ast.Compare) and
+            len(st.test.operand.args[0].ops) == 1 and isinstance(st.test.operand.args[0].ops[0], ast.Eq)):
+        raise TranslateError('resolve_degeneracy: companion test is not `if not np.all(a == b): raise ValueError`')
+    cmp_ = st.test.operand.args[0]
+    required = []
+    for e in entries:
+        env = {}
+        _bind(ttarget, e, env)
+        required.append((col_expr(cmp_.left, mname, env), col_expr(cmp_.comparators[0], mname, env)))
+    # c. d. e. mask of the hexes that stay; ids and rows appended pattern by pattern
+    src = ast.unparse(fn)
+    if src.count(f'nondegenerate = ~np.any({masks}, axis=0)') != 1:
+        raise TranslateError('resolve_degeneracy: nondegenerate mask')
+    perms = None
+    ids_ok = False
+    for nm in ('prism_ids', 'prism_data'):
+        for s in assigns(nm):
+            v = s.value
+            if not (isinstance(v, ast.Call) and ast.unparse(v.func) == 'np.concatenate' and len(v.args) == 1
+                    and not v.keywords):
+                continue
+            a = v.args[0]
+            if not (isinstance(a, ast.BinOp) and isinstance(a.op, ast.Add) and ast.unparse(a.left) == f'[{nm}]'):
+                raise TranslateError(f'resolve_degeneracy: {nm} concatenation must start with the old block')
+            c = comp_over(a.right)
+            if c is None:
+                raise TranslateError(f'resolve_degeneracy: {nm} concatenation')
+            if nm == 'prism_ids':
+                if not (isinstance(c[1], ast.Name) and ast.unparse(c[2]) == masks and
+                        ast.unparse(c[0]) == f'hex_ids[{c[1].id}]'):
+                    raise TranslateError('resolve_degeneracy: prism_ids item')
+                ids_ok = True
+            else:
+                m2, t2 = zip_targets(c[1], c[2])
+                e0 = c[0]
+                if not (isinstance(e0, ast.Subscript) and ast.unparse(e0.value) == f'hex_data[{m2}]' and
+                        isinstance(e0.slice, ast.Tuple) and len(e0.slice.elts) == 2 and
+                        ast.unparse(e0.slice.elts[0]) == ':'):
+                    raise TranslateError('resolve_degeneracy: prism_data item')
+                perms = []
+                for e in entries:
+                    env = {}
+                    _bind(t2, e, env)
+                    pv = _ev(e0.slice.elts[1], env)
+                    if not (isinstance(pv, (list, tuple)) and all(_is_int(x) for x in pv)):
+                        raise TranslateError('resolve_degeneracy: prism node order')
+                    perms.append(list(pv))
+    if not ids_ok or perms is None:
+        raise TranslateError('resolve_degeneracy: id / data concatenations not found')
+    # f. sort by id, keep the other hexes
+    m = re.search(r'(\w+) = np\.argsort\(prism_ids\)', src)
+    if not m:
+        raise TranslateError('resolve_degeneracy: argsort of the prism ids')
+    x = m.group(1)
+    for n in [f'prism_ids = prism_ids[{x}]', f'prism_data = prism_data[{x}]',
+              'hex_ids = hex_ids[nondegenerate]', 'hex_data = hex_data[nondegenerate]']:
+        if src.count(n) != 1:
+            raise TranslateError(f'resolve_degeneracy: expected {n!r}')
+    return [{'name': f'{table}[{k}]', 'equal': list(equal[k]), 'required': list(required[k]), 'perm': perms[k]}
+            for k in range(len(entries))]
+
+
+def resolve_degeneracy_any(fn, consts):
+    try:
+        return resolve_degeneracy(fn)
+    except TranslateError as e1:
+        try:
+            return resolve_degeneracy_table(fn, consts)
+        except TranslateError as e2:
+            raise TranslateError(f'{e1}; as a loop over a constant table: {e2}')
+
+
 # ------------------------------------------------------------------ memo slots
 def _int_const(n):
     if isinstance(n, ast.Constant) and isinstance(n.value, int) and not isinstance(n.value, bool):
@@ -788,7 +960,7 @@ def translate(repo, degrade=True):
         k['int32'] = wrap32
         k['kernel'] = kname
         model['kernels'][ty] = k
-    pats = region('resolve_degeneracy', lambda: resolve_degeneracy(_method(cls, 'resolve_degeneracy')),
+    pats = region('resolve_degeneracy', lambda: resolve_degeneracy_any(_method(cls, 'resolve_degeneracy'), _module_consts(ftree)),
                   [('fem_data.py:resolve_degeneracy', fsrc, lambda: _method(cls, 'resolve_degeneracy'))])
     model['patterns'] = pats if pats is not None else base['patterns']
     pm = region('_permute', lambda: permute(_method(gcls, '_permute'), _module_consts(gtree)),
